@@ -302,7 +302,7 @@ def run_chunk(chunk):
                         j = mt.to_json()
                         for bare in (False, True):
                             idx += 1
-                            vs = check_bin(j, bare, True, (None, 'rev', 'export')[idx % 3])
+                            vs = check_bin(j, bare, True, (None, 'rev', 'export', 'written')[idx % 4])
                             res.evals += 1
                             res.nontrivial += 1 if big else 0
                             res.outcome((mt.key(), bare, len(vs)))
@@ -321,7 +321,7 @@ def run_chunk(chunk):
             for sh, k in sweep.iter_shapes(chunk):
               for lab in ('path', 'NP'):
                 mt = model.simple_mt(sh, sid=4, labels=lab, pos=(['NP'] * len(model.leaves(sh)) if lab == 'NP' else None))
-                for order in (None, 'rev', 'export') + (('brackets',) if model.is_continuous(sh) else ()):
+                for order in (None, 'rev', 'export', 'written') + (('brackets',) if model.is_continuous(sh) else ()):
                     vs = check_col(mt.to_json(), order)
                     res.evals += 1
                     res.nontrivial += 1 if k > 0 or len(sh) == 1 else 0
